@@ -23,18 +23,20 @@ CheckRec(r) ==
   IF ~WF(r.p, O, r.dia) THEN Report("WFERR", [id |-> r.id, text |-> r.text])
   ELSE
   LET e == Elab(r.p, O, r.dia)
-      ncases(ci) == Len(r.cases[ci].res)
-      bad == {<<ci, st>> \in UNION {{<<ci, k>> : k \in 0..(ncases(ci) - 1)} : ci \in 1..Len(r.cases)} :
-                ~SameRes(Find(e, r.cases[ci].s, st, -1, r.rtl), r.cases[ci].res[st + 1])}
-      total == LET RECURSIVE Sum(_) Sum(ci) == IF ci = 0 THEN 0 ELSE ncases(ci) + Sum(ci - 1) IN Sum(Len(r.cases))
-      nontriv == Cardinality({ci \in 1..Len(r.cases) :
-                     NonTrivial(Find(e, r.cases[ci].s, IF r.rtl THEN Len(r.cases[ci].s) ELSE 0, -1, r.rtl),
-                                IF r.rtl THEN Len(r.cases[ci].s) ELSE 0)})
+      nc == Len(r.cases)
+      nst(ci) == Len(r.cases[ci].res)                       \* start offsets 0..nst-1
+      \* every prediction is computed exactly once
+      pred == [ci \in 1..nc |-> [k \in 1..nst(ci) |-> Find(e, r.cases[ci].s, k - 1, -1, r.rtl)]]
+      bad == {b \in UNION {{<<ci, k>> : k \in 1..nst(ci)} : ci \in 1..nc} :
+                ~SameRes(pred[b[1]][b[2]], r.cases[b[1]].res[b[2]])}
+      total == LET RECURSIVE Sum(_) Sum(ci) == IF ci = 0 THEN 0 ELSE nst(ci) + Sum(ci - 1) IN Sum(nc)
+      nat(ci) == IF r.rtl THEN nst(ci) ELSE 1                \* the natural starting offset (as index into pred)
+      nontriv == Cardinality({ci \in 1..nc : NonTrivial(pred[ci][nat(ci)], nat(ci) - 1)})
   IN /\ \A b \in bad :
           Report("BAD", [id |-> r.id, text |-> r.text, o |-> r.o, dia |-> r.dia, rtl |-> r.rtl,
-                         s |-> r.cases[b[1]].s, start |-> b[2],
-                         pred |-> Proj(Find(e, r.cases[b[1]].s, b[2], -1, r.rtl)),
-                         real |-> r.cases[b[1]].res[b[2] + 1]])
+                         s |-> r.cases[b[1]].s, start |-> b[2] - 1,
+                         pred |-> Proj(pred[b[1]][b[2]]),
+                         real |-> r.cases[b[1]].res[b[2]]])
      /\ Report("REC", [id |-> r.id, cases |-> total, bad |-> Cardinality(bad), nontrivial |-> nontriv])
 
 Init == c \in 1..NChunks /\ j = 0
